@@ -25,11 +25,13 @@ import (
 	"bytes"
 	"encoding/json"
 	"fmt"
+	"os"
 	"strings"
 
 	"github.com/ontio/ontology-crypto/keypair"
 	s "github.com/ontio/ontology-crypto/signature"
 	"github.com/ontio/ontology/common"
+	"github.com/ontio/ontology/common/log"
 	"github.com/ontio/ontology/core/types"
 	ontErrors "github.com/ontio/ontology/errors"
 
@@ -174,7 +176,7 @@ func (d *Drv) DoTx(in Input, raw []byte, extra []*Key) (o Outcome, decoded bool)
 	c := d.C
 	c.Eval()
 	in.Raw = hx.Hex(raw)
-	o, decoded = Evaluate(raw)
+	o, decoded = Evaluate(d.W.P, raw)
 	if !decoded {
 		c.Count("decode-rejected:" + in.Kind)
 		return
@@ -201,8 +203,12 @@ func (d *Drv) DoTx(in Input, raw []byte, extra []*Key) (o Outcome, decoded bool)
 	if d.NoCase {
 		return
 	}
-	c.Case(fmt.Sprintf("(let h := %s in CCheck %s %s %s %s)", hx.CoqBytes(hash[:]), d.W.VtxCoq(o.Tx, "h"), tables, o.Obs, o.Code), in)
-	d.W.EmitAbs(o.Tx, views, abs, in, d.AbsBudget)
+	c.Case(fmt.Sprintf("(let h := %s in CCheck %s %s %s %s)", d.W.P.CB(hash[:]), d.W.VtxCoq(o.Tx, "h"), tables, o.Obs, o.Code), in)
+	budget := d.AbsBudget
+	if in.Base != "" {
+		budget = 1
+	}
+	d.W.EmitAbs(o.Tx, views, abs, in, budget)
 
 	// O4
 	if o.Panicked {
@@ -272,8 +278,9 @@ func (d *Drv) replay(in Input) {
 }
 
 func Run(c *hx.Ctx) {
+	log.InitLog(log.FatalLog, os.Stderr) // VerifyTransaction logs every rejection
 	c.CoqModule("Corr.C16")
-	d := &Drv{C: c, AbsBudget: 12}
+	d := &Drv{C: c, AbsBudget: 3}
 	var rin Input
 	if c.ReplayInput(&rin) && rin.Raw != "" {
 		d.W = NewWorld(c, NewPool())
@@ -286,13 +293,17 @@ func Run(c *hx.Ctx) {
 		c.CoqHeader(fmt.Sprintf("Definition %s : pubkey := %s.", k.Name, k.CoqFull()))
 		c.Count("pool:" + k.Kind)
 	}
+	bases := d.PrepareBases()
+	for _, def := range pool.BlobDefs {
+		c.CoqHeader(def)
+	}
 	for _, rawIn := range c.CorpusInputs() {
 		var in Input
 		if json.Unmarshal(rawIn, &in) == nil && in.Raw != "" {
 			d.replay(in)
 		}
 	}
-	d.Generate()
+	d.Generate(bases)
 	c.Note(fmt.Sprintf("abstract-signature validation: %d crypto-library Verify calls compared with abs_verify", d.W.AbsN))
 }
 
